@@ -81,15 +81,15 @@ def c20fs : FS := [
 
 /-- a run with a directory, a plain file (6 bytes: `é` is two) and a dereferenced file (2 bytes) -/
 example :
-    (pack c20fs "/".toList ⟨true, false, []⟩ "/t/lnk/src".toList).2 = .ok ∧
-    (pack c20fs "/".toList ⟨true, false, []⟩ "/t/lnk/src".toList).1.pmeta =
+    (pack c20fs "/".toList ⟨true, false, [], []⟩ "/t/lnk/src".toList).2 = .ok ∧
+    (pack c20fs "/".toList ⟨true, false, [], []⟩ "/t/lnk/src".toList).1.pmeta =
       ⟨["b".toList, "d/".toList, "f".toList], 8⟩ := by decide
 
 /-- without dereferencing the same tree is refused, after `b` and `d/` were written: the metadata
 accounted so far still matches (`C20_meta` covers failing runs) -/
 example :
-    (pack c20fs "/".toList ⟨false, false, []⟩ "/t/lnk/src".toList).2 = .illegal ∧
-    (pack c20fs "/".toList ⟨false, false, []⟩ "/t/lnk/src".toList).1.pmeta =
+    (pack c20fs "/".toList ⟨false, false, [], []⟩ "/t/lnk/src".toList).2 = .illegal ∧
+    (pack c20fs "/".toList ⟨false, false, [], []⟩ "/t/lnk/src".toList).1.pmeta =
       ⟨["b".toList, "d/".toList], 6⟩ := by decide
 
 /-- **C20_deref_header_body_may_differ** (finding).  `resolveExternalLink` resolves a relative
@@ -100,7 +100,7 @@ entry `f` carries mode 0644 / mtime 0 of `/t/x/g` and the bytes `BB` of `/u/x/g`
 mtime 5 s).  The sizes agree here, so the archive is well-formed and `C20_meta` holds; when they
 differ the tar writer fails and Pack returns an error. -/
 theorem C20_deref_header_body_may_differ :
-    (pack c20fs "/".toList ⟨true, false, []⟩ "/t/lnk/src".toList).1.entries.getLast? =
+    (pack c20fs "/".toList ⟨true, false, [], []⟩ "/t/lnk/src".toList).1.entries.getLast? =
       some ⟨"f".toList, tReg, 0o644, 0, [], "BB".toList⟩ ∧
     (c20fs.lstat "/t/x/g".toList).toOption = some (.file 0o644 0 "AA".toList) ∧
     (c20fs.stat "/t/lnk/src/f".toList).toOption =
